@@ -51,6 +51,10 @@ CHECKS.update({
  'C20': ('symbolic execution of the real file helpers above contract stubs of the OS layer: errno, file size, read chunk size and seek offset are symbolic integers, contents uninterpreted; re-raise decisions, returned slices and hasher updates decided by z3',
          'Every errno 1..200; sizes up to 2^40 (last_bytes: num up to 2^41); checksum: size <= 4 (8) x chunk size. The real filesystem, mkstemp uniqueness and hashlib are outside the claim (stubs / streaming contract).'),
 })
+CHECKS.update({
+ 'C18': ('symbolic execution of the real match(): real pyparsing on a concrete spec skeleton, operands as placeholder literals that float() maps to symbolic IEEE doubles (z3 FloatingPoint), string values as symbolic strings; results compared with the documented operator table',
+         'Numeric operators and <range-in> for all finite doubles; string operators for values up to 3 (5) characters against a concrete operand family. <all-in> and symbolic operand strings are outside the claim.'),
+})
 NA = {
 }
 def main():
